@@ -5,6 +5,10 @@ ROOT = os.path.dirname(os.path.dirname(os.path.abspath(__file__)))
 
 # id -> (technique, level text, level note, design ref)
 CHECKS = {
+ "C03": ("differential against a reference interpreter (scope chain, loop bookkeeping, capture stack, includes, autoescape at the sink) over proptest-generated multi-template programs instrumented with observation points that print every name of a shared pool (and loop.*) after every statement; order-insensitive multiset comparison for loops over multi-entry maps",
+         "Exploration: 450k generated three-template programs (quick; x20 thorough, depth 4) mixing if/elif/else, for/else over arrays, multi-byte strings and maps, break/continue, set/set_global, set blocks with filter chains, filter sections and includes, with render context, global context, assignments and loop variables all drawn from the same 6 names so the four scopes shadow each other; 40k map loops compared as multisets.",
+         "Trusted base: the reference interpreter (harness/src/stmt.rs, expr.rs). Included templates never extend; outcomes the documentation leaves open are discarded and counted.",
+         "DESIGN.md section 4 C03"),
  "C02": ("differential against a reference evaluator written from the documentation: exhaustive operator-pair matrix with model-searched discriminating operands, hand-written table of the documented undefined/type rules, laziness cases with poison operands, and proptest-generated expressions over all forms, each rendered in three spellings (minimal parentheses per the documented precedence table, fully parenthesised, noisy: redundant parentheses + random whitespace/newlines/quote styles)",
          "Exploration: 906 operator pairings (every ordered pair of the 18 binary operators, prefix/postfix/filter/test/ternary against each) of which all distinguishable ones are checked on operands where the two groupings differ; 100-row table of documented rules; 195 laziness cases; 650k generated expressions x 3 spellings (quick; x25 thorough) over contexts binding 15 free variables to their nominal kind, another kind or nothing, with integers in random encodings.",
          "Trusted base: the reference evaluator (harness/src/expr.rs) and the built-in references of C17. Outcomes the documentation leaves open are discarded and counted (undefined as operand of ==/!=/~/in, undefined stored in literals, map iteration order, open built-in contracts). Depth bounded by 18 of the parser's 40.",
